@@ -22,6 +22,9 @@ type Conn struct {
 	closed bool
 	// OnWrite, if set, observes every Write performed on this end (harness use).
 	OnWrite func(p []byte)
+	// MaxRead, if > 0, caps what one Read returns: the peer's data arrives in segments
+	// (a single Read returning a whole reply is a property of loopback, not of TCP)
+	MaxRead int
 }
 
 type pipeBuf struct {
@@ -54,6 +57,9 @@ func (c *Conn) Read(p []byte) (int, error) {
 		return 0, errors.New("use of closed network connection")
 	}
 	if len(c.in.data) > 0 {
+		if c.MaxRead > 0 && len(p) > c.MaxRead {
+			p = p[:c.MaxRead]
+		}
 		n := copy(p, c.in.data)
 		c.in.data = c.in.data[n:]
 		return n, nil
